@@ -28,7 +28,7 @@ func TestC17(t *testing.T) {
 	openKF = kit.OpenFindings("C17")
 	kit.Main(t, kit.Spec[Case]{
 		ID: "C17", Level: "exploration",
-		Rule: "history of 2-11 (thorough 2-16; race twin 2-6) calls on ONE TemplateEngine over 5 names: LoadTemplate of sources from the documented grammar (literals, variables, if/else, each with nesting, blocks, image lines), LoadTemplate of derived sources ({{extends}} naming a loaded text or document template, an absent name or the name itself; overriding subsets of 4 block names, so chains and siblings sharing a base arise), LoadTemplateFromDocument of API-built documents (formatted runs, placeholders split over runs, conditionals, inline / multi-paragraph / table-row loops, tables with {{var}} cells and formatted cells, tables nested 1-2 levels in cells of plain / header / template / trailing rows with variables, conditionals and loop rows of their own, picture placeholder, header, footer, landscape, saved or not), RenderToDocument / RenderTemplateToDocument of loaded and absent names with one of 1-3 typed data sets, RemoveTemplate, ClearCache, re-loading; then a render of most loaded names; in 40% of the cases (race twin: all) a concurrent phase of 2-4 (2-6) goroutines on a barrier rendering equal and different names and loading / removing names nobody renders. non-trivial = (>=3 loads with >=1 bound extends, >=2 renders, >=1 render of a version after a later load/remove/clear) or (a concurrent phase that ran with >=2 goroutines and >=2 renders after >=2 loads); distinct = distinct sequence of (call kind, name, parent name, directive signature of the source, entry point, data index) incl. the concurrent jobs",
+		Rule: "history of 2-11 (thorough 2-16; race twin 2-6) calls on ONE TemplateEngine over 5 names: LoadTemplate of sources from the documented grammar (literals, variables, if/else, each with nesting, blocks, image lines), LoadTemplate of derived sources ({{extends}} naming a loaded text or document template, an absent name or the name itself; overriding subsets of 4 block names, so chains and siblings sharing a base arise), LoadTemplateFromDocument of API-built documents (formatted runs, placeholders split over runs, conditionals, inline / multi-paragraph / table-row loops, tables with {{var}} cells and formatted cells, tables nested 1-2 levels in cells of plain / header / template / trailing rows with variables, conditionals and loop rows of their own, picture placeholder, default / first-page / even-page headers and footers (0-6 parts), a picture, list items and a footnote of its own, headings with bookmarks, formula paragraphs, a generated table of contents, landscape, saved or not, saved and opened again before or after these additions - so that the relationship, content-type and part tables of base documents come in many sizes, with and without spare capacity), RenderToDocument / RenderTemplateToDocument of loaded and absent names with one of 1-3 typed data sets, RemoveTemplate, ClearCache, re-loading, edits of documents earlier renders returned (picture, header / footer of any kind, paragraph, list item, footnote, title, style, run text, cell text, headings + UpdateTOC, AutoGenerateTOC, formula content, bookmark name); in 30% of the cases a document template with a picture placeholder is loaded next and rendered 2-3 times in a row with different data sets (data set k supplies pictures whose format is rotated by k), with edits in between; then a render of most loaded names (document templates sometimes twice, with different data); in 40% of the cases (race twin: all) a concurrent phase of 2-4 (2-6) goroutines on a barrier rendering equal and different names and loading / removing names nobody renders. non-trivial = (>=3 loads with >=1 bound extends, >=2 renders, >=1 render of a version after a later load/remove/clear) or (a concurrent phase that ran with >=2 goroutines and >=2 renders after >=2 loads); distinct = distinct sequence of (call kind, name, parent name, directive signature of the source, entry point, data index) incl. the concurrent jobs",
 		Gen:  genCase, Run: run, Findings: findings,
 		Fixed: func() []Case {
 			if os.Getenv("C17_NOFIXED") != "" { // development aid: sensitivity of the generated search alone
@@ -43,9 +43,14 @@ func TestC17(t *testing.T) {
 			"U2 is not evaluated for RenderToDocument of a document template whose base has both a header and a footer: LoadTemplateFromDocument collects their text into Template.Content in map-iteration order, so two loads of one document differ by what loading does, not rendering (U1, U3, U4 still apply)",
 			"concurrent phase: no goroutine loads or removes a name another goroutine renders, every name is mutated by at most one job, ClearCache is not issued; while " + kfParent + " is open no concurrent job loads a derived template",
 			"a load that fails or panics ends the history (loads are judged by C16.T0)",
+			"a document a render returned is that render's result for as long as the caller holds it: every returned document is kept and observed again (all fields in memory after every later render, edit and the concurrent phase; the saved package of the two earliest ones at the end) and must be what it was when it was returned (U2.retained). An edit of a returned document through the document API is not an engine call: it changes neither a base document (U3) nor another returned document",
+			"the body of a returned document shares no storage (pointer targets, slice backing arrays, maps) with the body of a base document or of the document the same call returned before (U3.shared): the body is a tree of exported structures the caller works on, so shared storage means that working on the result modifies the base document. Judged for bodies only: the numbering / note managers share read-only entries by design",
+			"in-memory parts word/styles.xml, numbering.xml, footnotes.xml, endnotes.xml and docProps/core.xml are left out of the in-memory comparison (written in map-iteration order / with the clock); they are compared through the saved package",
 		},
-		MustSee: map[string]float64{"load:extends-bound": 0.5, "render:base-after-child-load": 0.25, "render:child-with-sibling": 0.12, "render:chain>=3": 0.08,
+		MustSee: map[string]float64{"load:extends-bound": 0.5, "render:base-after-child-load": 0.25, "render:child-with-sibling": 0.1, "render:chain>=3": 0.06,
 			"render:doc-template": 0.15, "doc:table-with-placeholders": 0.15, "doc:nested-table": 0.08, "load:reload-other-source": 0.15, "remove:loaded-name": 0.15, "clear:non-empty": 0.04, "render:after-intervening-calls": 0.5,
-			"render:ancestor-reloaded-or-removed": 0.05, "render:name-not-loaded": 0.08, "conc:ran": 0.3, "conc:same-name-in-2-goroutines": 0.25, "conc:with-loads/removals": 0.15},
+			"render:ancestor-reloaded-or-removed": 0.05, "render:name-not-loaded": 0.08, "conc:ran": 0.3, "conc:same-name-in-2-goroutines": 0.25, "conc:with-loads/removals": 0.15,
+			"kept:results>=4": 0.4, "edit:applied": 0.2, "doc:header/footer-parts>=3": 0.15, "render:base-relationship-table-has-spare-capacity": 0.12,
+			"render:doc-template-again-with-other-picture-format": 0.1, "render:other-picture-format+spare-capacity": 0.06, "doc:table-of-contents": 0.06, "doc:bookmark-or-formula": 0.06},
 	})
 }
